@@ -4,7 +4,7 @@ from harness import c09 as C9
 from spec import enc
 from spec import elf_layout as L
 from spec import relocs as R
-from harness.elfkit import Image, stream_length, elf_object
+from harness.elfkit import Image, stream_length, elf_object, shdr
 
 PROPERTY = 'C08'
 ASSUMPTIONS = [
@@ -83,7 +83,7 @@ def h_table(ctx):
     ctx.outcome('ok')
     ctx.check_eq('table/is_RELA', tab.is_RELA(), rela)
     ctx.check_eq('table/num_relocations', tab.num_relocations(), k)
-    got = ctx.drain(tab.iter_relocations())
+    got = ctx.walk(lambda: tab.iter_relocations())
     ctx.check_eq('table/count', len(got), k)
     shift, mask = (8, 0xff) if cls == 32 else (32, 0xffffffff)
     for g, w in zip(got, ents):
@@ -214,6 +214,29 @@ class _SymTab:
         return {'st_value': self.values[i]}
 
 
+class _RelSec:
+    """a relocation section with the given entries (what RelocationHandler.apply_section_relocations is handed)"""
+    def __init__(self, relocs, sh_type):
+        self.relocs = relocs
+        self.name = '.rela.x' if sh_type == 'SHT_RELA' else '.rel.x'
+        self.header = shdr(sh_type=sh_type, sh_link=2, sh_info=1, sh_entsize=24, sh_size=24 * len(relocs))
+
+    def __getitem__(self, k):
+        return self.header[k]
+
+    def is_RELA(self):
+        return self.header['sh_type'] == 'SHT_RELA'
+
+    def num_relocations(self):
+        return len(self.relocs)
+
+    def get_relocation(self, n):
+        return self.relocs[n]
+
+    def iter_relocations(self):
+        return iter(self.relocs)
+
+
 def h_apply(ctx):
     cfg = ctx.cfg
     mach, cls, little, rela = cfg['machine'], cfg['elfclass'], cfg['little'], cfg['rela']
@@ -254,8 +277,11 @@ def h_apply(ctx):
     types = dict(table)
     if mach == 'MIPS' and not rela:
         types = {t: v for t, v in types.items() if t in R.MIPS_REL_TYPES}
+    # through the public entry point: a relocation section holding this one entry, linked to the symbol table
+    symtab = _SymTab(ctx, svals)
+    elf.get_section = lambda n: symtab
     try:
-        handler._do_apply_relocation(st, reloc, _SymTab(ctx, svals))
+        handler.apply_section_relocations(st, _RelSec([reloc], 'SHT_RELA' if rela else 'SHT_REL'))
     except EXC.ELFRelocationError:
         ctx.outcome('rejected')
         bad_sym = symidx >= nsyms
